@@ -135,11 +135,15 @@ func (k msgServer) Complete(goCtx context.Context, msg *types.MsgComplete) (*typ
 			return nil, err
 		}
 		k.order.RemoveShard(ctx, oldShard.Id)
-		if len(oldShard.RenewInfos) > 1 {
-			for i := 0; i < len(oldShard.RenewInfos)-1; i++ {
-				order, _ := k.order.GetOrder(ctx, oldShard.RenewInfos[i].OrderId)
-				orderList = append(orderList, &order)
+		for _, renewInfo := range oldShard.RenewInfos {
+			if renewInfo.OrderId == order.Id || renewInfo.OrderId == orderInProgress.Id {
+				continue
 			}
+			renewOrder, found := k.order.GetOrder(ctx, renewInfo.OrderId)
+			if !found {
+				continue
+			}
+			orderList = append(orderList, &renewOrder)
 		}
 		for _, order := range orderList {
 			newShards := make([]uint64, 0)
